@@ -172,6 +172,14 @@ def cases():
         yield dict(name="for-call-header-twice", d=u, u=u, expect=True, src=PAIR + render({u: [hdr, "}", hdr, "}"]}))
         yield dict(name="for-single-call-header-after", d=u, u=u, expect=False,
                    src=PAIR + render({u: ["for var c9 = f0(); c9 < 2; c9++ {", "}", "print(c9)"]}).replace("g0 := 1\n", "g0 := 1\nfunc f0() int {\n\treturn 0\n}\n", 1))
+    # 1d. one definition lists every name once (genuine defect repaired in round 11: "a, a := 1, 2" was accepted)
+    for u in SLOTS:
+        yield dict(name="dup-in-definition-short", d=u, u=u, expect=False, src=render({u: ["a9, a9 := 1, 2", "print(a9)"]}))
+        yield dict(name="dup-in-definition-var", d=u, u=u, expect=False, src=render({u: ["var b9, b9 = 3, 4", "print(b9)"]}))
+        yield dict(name="dup-in-definition-var-typed", d=u, u=u, expect=False, src=render({u: ["var b9, c9, b9 int = 3, 4, 5"]}))
+        yield dict(name="dup-in-definition-call", d=u, u=u, expect=False, src=PAIR + render({u: ["c9, c9 := pair2()", "print(c9)"]}))
+        yield dict(name="dup-in-definition-existing", d=u, u=u, expect=False, src=render({u: ["x := 5", "x, zz9, x := 6, 7, 8"]}))
+        yield dict(name="dup-in-assignment-is-legal", d=u, u=u, expect=True, src=render({u: ["x := 5", "x, x = 6, 7", "print(x)"]}))
     # 2. parameters, loop-header and range variables
     for u in SLOTS:
         in_f = u in (1, 2, 3, 4, 5, 6, 7, 8)
